@@ -186,6 +186,30 @@ def alignment_rule(name, src, args, inc, tmp):
     return None
 
 
+WIN64_FILES = ["core/ascon-asm-x86-64.S", "masking/ascon-word-asm-x86-64.S", "masking/ascon-x2-asm-x86-64.S", "masking/ascon-x3-asm-x86-64.S", "masking/ascon-x4-asm-x86-64.S"]
+
+
+def check_win64(rel):
+    """The x86-64 files follow the System V calling convention only, and the selection headers keep them out of Windows and
+    Cygwin builds (they preprocess to nothing there).  If one of them defines code for such a target, it runs under the
+    Microsoft x64 convention: arguments in rcx/rdx/r8, rsi/rdi callee-saved."""
+    src = os.path.join(REPO, "src", rel)
+    tmp = tempfile.mkdtemp(prefix="c18win-", dir=os.path.join(BUILD, "tmp") if os.path.isdir(os.path.join(BUILD, "tmp")) else None)
+    try:
+        obj = os.path.join(tmp, "o.o")
+        inc = ["-I", os.path.join(REPO, "src"), "-I", os.path.join(REPO, "src", "core"), "-I", os.path.join(REPO, "src", "masking")]
+        rc, out = sh(["clang", "--target=x86_64-w64-mingw32", "-Wno-unused-command-line-argument", "-c", "-x", "assembler-with-cpp"] + inc + [src, "-o", obj])
+        if rc != 0:
+            return None       # does not assemble for that target at all: nothing is selected
+        rc, syms = sh(["llvm-nm-14", obj])
+        names = [l.split()[-1] for l in syms.splitlines() if (" T " in l or " t " in l) and "ascon_" in l]
+        if names:
+            return "built for x86_64-w64-mingw32 the file defines %d entry point(s) (%s ...): System V code selected under the Microsoft x64 calling convention" % (len(names), names[0])
+        return None
+    finally:
+        shutil.rmtree(tmp, ignore_errors=True)
+
+
 def run(ev, tier, seen, record):
     if not tools_present():
         return [], ["independent assembler (clang / llvm-readelf-14 not found)"]
@@ -200,11 +224,27 @@ def run(ev, tier, seen, record):
         if problem:
             record(ev, "asm:%s:%s" % (name, problem.split(":")[0][:50]), {"kind": "asm", "target": name, "file": TARGETS[name][0], "what": problem},
                    "src/%s (%s): %s" % (TARGETS[name][0], name, problem), seen)
+    if shutil.which("llvm-nm-14"):
+        for rel in WIN64_FILES:
+            if os.path.exists(os.path.join(REPO, "src", rel)):
+                problem = check_win64(rel)
+                ev.evaluations += 1
+                ev.classes["win64-exclusion"] = ev.classes.get("win64-exclusion", 0) + 1
+                if problem:
+                    record(ev, "asm:win64:" + rel, {"kind": "asm-win64", "file": rel, "what": problem}, "src/%s: %s" % (rel, problem), seen)
     ev.samples.append({"_part": "independent assembler", "targets": names})
     return [], []
 
 
 def replay(path, obj):
+    if obj.get("kind") == "asm-win64":
+        problem = check_win64(obj["file"])
+        if problem:
+            print(problem)
+            print("VIOLATION property=%s replay=%s" % (PROP, path))
+            return 1
+        print("REPLAY-PASS")
+        return 0
     if obj.get("kind") != "asm":
         return None
     if not tools_present():
